@@ -267,6 +267,12 @@ def uspec_term(a, spec, G='G'):
             C.q(float(a.get('costs_const', 0.0))), C.q(float(a.get('min_cap', 0.0))), C.q(float(a.get('max_cap', 0.0))),
             C.q(float(a.get('efficiency', 1.0))))
         return '(UTransport %s %s)' % (rg, tp)
+    if k == 'ExtendedTransport':
+        tp = '(Build_transport_p %s %s %s %s %s %s %s %s)' % (
+            C.s(a['name']), C.s(a['nodes'][0]), C.s(a['nodes'][1]), price_term(a.get('costs_time_series'), spec),
+            C.q(float(a.get('costs_const', 0.0))), C.q(float(a.get('min_cap', 0.0))), C.q(float(a.get('max_cap', 0.0))),
+            C.q(float(a.get('efficiency', 1.0))))
+        return '(UExtTransport %s %s %s %s)' % (rg, tp, takes_term(a.get('max_take'), g), takes_term(a.get('min_take'), g))
     if k == 'Storage' and not a.get('no_simult_in_out') and a.get('max_store_duration') is None and not a.get('block_size'):
         sp = '(Build_storage_p %s %s %s %s %s %s %s %s %s %s %s %s %s false None)' % (
             C.s(a['name']), C.lst([C.s(n) for n in a['nodes']]), C.q(float(a['size'])), C.q(float(a['cap_in'])),
